@@ -105,6 +105,15 @@ def ensure_built(clean=False):
                     os.unlink(os.path.join(COQ, fn))
                 except OSError:
                     pass
+        # the write path of hpfeeds/blocking/reactor.py -> coq/ReactorGen.v (C20); same fail-closed rule
+        rc5, out5, err5, _ = _run(['/venv/bin/python', os.path.join(VERIF, 'harness', 'pytrans5.py')], timeout=120)
+        if rc5 != 0:
+            trans_note += ' pytrans5 failed: ' + (out5 + err5)[-600:]
+            for fn in ('ReactorGen.v', 'ReactorGen.vo', 'ReactorGenEq.vo'):
+                try:
+                    os.unlink(os.path.join(COQ, fn))
+                except OSError:
+                    pass
         mk = os.path.join(COQ, 'Makefile')
         stale = (not os.path.exists(mk)) or os.path.getmtime(mk) < os.path.getmtime(os.path.join(COQ, '_CoqProject'))
         if clean or stale:
